@@ -67,6 +67,7 @@ Lemma sys_read_bits o want : wobj (fst (sys_read o want)) = wobj o /\ o_evR (fst
 Proof.
   unfold sys_read.
   destruct (o_closed o || _); [cbn; auto|].
+  destruct (match o_kind o with KLsn => true | _ => false end); [destruct (0 <? e_rq o); cbn; auto|].
   destruct (0 <? e_rq o); [cbn; auto|].
   destruct (e_rst o); [cbn; auto|].
   destruct (o_kind o); cbn; auto; destruct (e_reof o); cbn; auto.
@@ -152,7 +153,11 @@ Proof.
   assert (Ho1 : wobj o1 = wobj o) by (unfold o1; destruct w; reflexivity).
   assert (Hg : gap (set_obj s i o1) = gap s + wobj o0 - wobj o) by (rewrite gap_set_obj, Hl; lia).
   destruct (if w then o_wr o else o_rd o) as [p|]; [|exact Hg].
-  destruct (negb (err =? xNil)); [exact Hg|]. rewrite io_now_gap. exact Hg.
+  destruct (negb (err =? xNil)); [exact Hg|].
+  destruct (o_kind o) eqn:Ek; try (rewrite io_now_gap; exact Hg).
+  (* listener: one accept *)
+  pose proof (sys_read_bits o1 0) as (Hb & _ & _).
+  destruct (sys_read o1 0) as [o2 r]. cbn [fst] in *. rewrite gap_set_obj, Hl. lia.
 Qed.
 
 Lemma write_event_gap s i err : gap (fst (write_event s i err)) = gap s.
@@ -395,15 +400,21 @@ Lemma on_event_read_outcome s i o p :
   (snd (on_event s i o false xNil) = [] /\
    (armed (fst (on_event s i o false xNil)) i false \/ l_fuel_out (fst (on_event s i o false xNil)) = true)).
 Proof.
-  intros Hrd. unfold on_event. rewrite Hrd. change (negb (xNil =? xNil)) with false. cbv iota.
-  match goal with |- context [io_now 64 ?st i false p false] =>
-    pose proof (io_now_outcome 64 st i false p false) as Hout;
-    assert (Hlk : lookup i (l_objs st) <> None) by (rewrite lookup_set_obj; discriminate);
-    generalize dependent (io_now 64 st i false p false) end.
-  intros r Hout.
-  destruct Hout as [(e & n & H)|(H1 & H2)].
-  - left. exists e, n. exact H.
-  - right. split; [exact H1|]. destruct H2 as [H2|[H2|H2]]; [left; exact H2|right; exact H2|contradiction].
+  intros Hrd. unfold on_event. rewrite Hrd. change (negb (xNil =? xNil)) with false. cbv iota zeta.
+  assert (Hlsn : forall o1 : obj, exists e n,
+            snd (let '(o2, r) := sys_read o1 0 in
+                 (set_obj s i o2, [IInvoke (op_cb p) (match r with SGot _ => xNil | SEof => xEOF | SWouldBlock => xWouldBlock | SFail e => e end)
+                                     (match r with SGot n => n | _ => 0 end) false])) = [IInvoke (op_cb p) e n false]).
+  { intros o1. destruct (sys_read o1 0) as [o2 r]. eexists; eexists; reflexivity. }
+  destruct (o_kind o); try (left; apply Hlsn).
+  all: clear Hlsn.
+  all: match goal with |- context [io_now 64 ?st ?ii false ?pp false] =>
+    pose proof (io_now_outcome 64 st ii false pp false) as Hout;
+    assert (Hlk : lookup ii (l_objs st) <> None) by (rewrite lookup_set_obj; discriminate);
+    generalize dependent (io_now 64 st ii false pp false) end.
+  all: intros r Hout; destruct Hout as [(e & n & H)|(H1 & H2)];
+    [left; exists e, n; exact H
+    |right; split; [exact H1|]; destruct H2 as [H2|[H2|H2]]; [left; exact H2|right; exact H2|contradiction]].
 Qed.
 
 (* Progress: an in-flight read on an open object whose descriptor the batch reports with IN, HUP or ERR is dispatched
